@@ -245,6 +245,9 @@ type vfSockCase struct {
 	// OutLink: 1 = the output directory is a symbolic link to the real directory; 2 = its constant-recordings
 	// sub-directory is one
 	OutLink int `json:"out_link,omitempty"`
+	// Tail: the connection dies inside a frame: this many bytes (at most all but one) of one more frame, different
+	// from the last complete one, are sent before the connection closes. It must not be delivered.
+	Tail int `json:"tail,omitempty"`
 }
 
 // makeOut creates the output directory of the case below dir and returns its path (as written to config.toml).
@@ -271,7 +274,7 @@ func (c vfSockCase) makeOut(dir string) string {
 	return out
 }
 
-var vfOutNames = []string{"", "", "", "rec.temp", "a.cptv.temp.d", "spool.temp/recordings", "x y", "cptv", "constant-recordings", "usb[1]/cptv", "a*b?c", "back\\slash"}
+var vfOutNames = []string{"", "", "", "rec.temp", "a.cptv.temp.d", "spool.temp/recordings", "x y", "cptv", "constant-recordings", "usb[1]/cptv", "a*b?c", "back\\slash", "cptv [spool", "trail\\"}
 
 func (c vfSockCase) outDir(dir string) string {
 	n := c.OutName
@@ -495,6 +498,19 @@ func vfRunSock(c vfSockCase) *vfSockOut {
 			pos = end
 		}
 	}
+	if c.Tail > 0 {
+		raw, _ := vfSockFrame(c, (id+7)%1500, !level, false)
+		n := c.Tail
+		if n > len(raw)-1 {
+			n = len(raw) - 1
+		}
+		if err := conn.Write(raw[:n]); err != nil {
+			o.connErr = conn.Close()
+			o.err = fmt.Sprintf("stream could not be delivered: %v; handleConn: %v", err, o.connErr)
+			o.logs = lb.String()
+			return o
+		}
+	}
 	o.connErr = conn.Close()
 	o.logs = lb.String()
 	read := func(d string) ([][]int, [][]uint16, string) {
@@ -583,8 +599,20 @@ func vfGenSockBase(t *rapid.T, bad, clear bool) vfSockCase {
 	c.Max = c.Min + rapid.IntRange(0, 2).Draw(t, "maxx")
 	c.Trigger = rapid.IntRange(1, 2).Draw(t, "trigger")
 	c.Fast = rapid.IntRange(0, 2).Draw(t, "fast") == 0
+	if rapid.IntRange(0, 39).Draw(t, "longpreview") == 0 {
+		// a pre-trigger buffer of more than 255 seconds (at 1 fps, so that the stream stays short): a long quiet
+		// lead-in, then motion
+		c.Cam.FPS = 1
+		c.Prev = rapid.IntRange(254, 300).Draw(t, "prevlong")
+		c.Fast = true
+		for i := c.Prev + rapid.IntRange(0, 30).Draw(t, "leadin"); i > 0; i-- {
+			c.Items = append(c.Items, vfItem{K: vfItFrame})
+		}
+		c.Items = append(c.Items, vfItem{K: vfItFrame, On: true}, vfItem{K: vfItFrame, On: true}, vfItem{K: vfItFrame, On: true})
+	}
 	c.OutName = rapid.SampledFrom(vfOutNames).Draw(t, "outname")
 	c.OutLink = rapid.SampledFrom([]int{0, 0, 0, 0, 1, 2}).Draw(t, "outlink")
+	c.Tail = rapid.SampledFrom([]int{0, 0, 0, 1, 4, 5, 6, 64, 1 << 20}).Draw(t, "tail")
 	nseg := rapid.IntRange(2, 8).Draw(t, "nseg")
 	for s := 0; s < nseg; s++ {
 		switch rapid.IntRange(0, 6).Draw(t, "seg") {
@@ -819,7 +847,13 @@ func vfRunC14SockInner(c vfSockCase) *kit.Result {
 		r.Failf("%s", o.err)
 		return r
 	}
-	if o.connErr == nil || !strings.Contains(o.connErr.Error(), "EOF") || strings.Contains(o.connErr.Error(), "unexpected") {
+	if c.Tail > 0 {
+		if o.connErr == nil || !strings.Contains(o.connErr.Error(), "EOF") {
+			r.Failf("the connection died inside a frame; handleConn ended with %v, want an EOF error", o.connErr)
+			return r
+		}
+		r.Class("connection_dies_inside_a_frame")
+	} else if o.connErr == nil || !strings.Contains(o.connErr.Error(), "EOF") || strings.Contains(o.connErr.Error(), "unexpected") {
 		r.Failf("handleConn ended with %v, want a clean EOF at a frame boundary (frame alignment lost?)", o.connErr)
 		return r
 	}
@@ -881,7 +915,7 @@ func vfRunC14SockInner(c vfSockCase) *kit.Result {
 
 func TestVF_C14_Socket(t *testing.T) {
 	kit.Drive(t, "C14", "TestVF_C14_Socket",
-		"generated: a camera header followed by frames and 5-byte 'clear' markers (at the start, at the end, repeated back to back, between frames), cut into segments of generated sizes (1 byte .. larger than a frame, cuts inside the marker, inside the first 5 bytes of a frame and inside header lines) and written to the real handleConn over a pipe; continuous recorder on, padded so that every frame sits in a finished file. Oracle: handleConn ends with a clean EOF at a frame boundary; the continuous files contain every sent frame exactly once, in order, pixel-exact; the motion files equal the reference model in which each 'clear' ends the recording in progress and makes the next frame first-of-epoch; every marker is recognised. For a Boson with edge-pixels 1 half of the cases carry frames whose first bytes resemble the marker ('cleaR', 'CLEAR', 'clear' from the second byte: must be delivered as frames; the marker's five bytes themselves: known finding D19, exempted only if the same case passes with 'cleaR'). Non-trivial: at least one 'clear' and a segmentation with pieces shorter than the 5-byte marker.",
+		"generated: a camera header followed by frames and 5-byte 'clear' markers (at the start, at the end, repeated back to back, between frames), cut into segments of generated sizes (1 byte .. larger than a frame, cuts inside the marker, inside the first 5 bytes of a frame and inside header lines) and written to the real handleConn over a pipe; continuous recorder on, padded so that every frame sits in a finished file. Oracle: handleConn ends with a clean EOF at a frame boundary; the continuous files contain every sent frame exactly once, in order, pixel-exact; the motion files equal the reference model in which each 'clear' ends the recording in progress and makes the next frame first-of-epoch; every marker is recognised; half of the streams end inside a frame (1 byte .. all but one byte of it), which must not be delivered. For a Boson with edge-pixels 1 half of the cases carry frames whose first bytes resemble the marker ('cleaR', 'CLEAR', 'clear' from the second byte: must be delivered as frames; the marker's five bytes themselves: known finding D19, exempted only if the same case passes with 'cleaR'). Non-trivial: at least one 'clear' and a segmentation with pieces shorter than the 5-byte marker.",
 		vfGenC14Sock, vfRunC14Sock)
 }
 
